@@ -267,6 +267,15 @@ func setValueAt(s telem.Series, i int, v uint64) {
 
 func valueAt(s telem.Series, i int) uint64 {
 	data := s.At(i)
+	// i8/i16 parameters live in 32-bit WASM registers in sign-extended form (that is how
+	// the compiler materialises literals of these types and how signed comparisons,
+	// divisions and widening casts read them).
+	switch s.DataType {
+	case telem.Int8T:
+		return uint64(uint32(int32(int8(data[0]))))
+	case telem.Int16T:
+		return uint64(uint32(int32(int16(telem.ByteOrder.Uint16(data)))))
+	}
 	density := s.DataType.Density()
 	switch density {
 	case telem.Bit8:
